@@ -115,6 +115,11 @@ def r1(ctx):
                 p = pv[0].idx[0]
                 bind = b.binder_of(loops[0])
                 cond = bind == (p, Range(0, tm.length(labels)))
+                lv = b.loopvars.get(p.key) if isinstance(p, Sym) else None
+                if not cond and lv is not None and lv[0] == "zip" and labels in lv[1] and all(z in (labels, data) for z in lv[1]):
+                    # zip(data, labels): one visit per label that has a data row; the indexed form visits the same points whenever it does
+                    # not raise (a label without a row is an IndexError there), and the two lengths agree in every state (C04.R5)
+                    cond = True
                 cond = cond and isinstance(val, App) and val.fn.endswith("likelihood.point_log_likelihood") \
                     and any(x == pv[0] for x in tm.subterms(val))
                 want_g = tm.compare("!=", pv[0], -1)
